@@ -75,11 +75,12 @@ def r2(ctx):
                     for o in _ops(s2["r"]):
                         pl = op_place(o)
                         if pl and any(f.startswith(("turmoil::config::Latency::", "turmoil::config::MessageLoss::")) for f in place_fields(pl)):
-                            if pl["l"] != cfg_local:
+                            if pl["l"] != cfg_local and not _derives_from_select(ctx, b, pl["l"]):
                                 stray.append(s2["s"])
                     if "p" in s2["r"] and isinstance(s2["r"].get("p"), dict):
                         pl = s2["r"]["p"]
-                        if any(f.startswith(("turmoil::config::Latency::", "turmoil::config::MessageLoss::")) for f in place_fields(pl)) and pl["l"] != cfg_local:
+                        if any(f.startswith(("turmoil::config::Latency::", "turmoil::config::MessageLoss::")) for f in place_fields(pl)) and pl["l"] != cfg_local \
+                                and not _derives_from_select(ctx, b, pl["l"]):
                             stray.append(s2["s"])
                 if stray:
                     ok = False
@@ -102,6 +103,11 @@ def r2(ctx):
         ctx.inst(R, f"{fid}:copy-on-first-use", bool(g), b.span, "override is created from the global config on first use, then kept" if g else
                  "override accessor no longer uses get_or_insert_with on the link's Option")
     ctx.floor(R, 8)
+
+
+def _derives_from_select(ctx, b, l):
+    at = Slicer(ctx.w).atoms(b, {"c": {"l": l}})
+    return any(re.search(r"^call:std::option::Option::(unwrap_or|unwrap_or_else|map_or)$", a) for a in at)
 
 
 def _ops(r):
